@@ -28,7 +28,7 @@ def run(chk, prop=None):
     if extra:
         chk.validate('stack-parameters', 'Trace_MM', 'Trace_MM.cfg', extra, driver='twins', jobs=4, growth=True)
     goods = [r for r in recs if r['exc'] == '' and r['A'] and len(r['A'][0]['t']['data']) > 2]
-    good = goods[0]
+    good = goods[0] if goods else None
 
     def corrupt(r):
         d = r['B'][0]['t']['data']
